@@ -37,6 +37,14 @@ def oracle_c10(tr: Trace):
         if st.tag == 7 and st.op[1] == 2:
             file_tampered = True        # the environment deleted a file: outside the property's histories
         e = st.ob["exc"]
+        if st.tag == 2 and not e and st.prev is not None:
+            # the public counter of PDUs ready to be sent agrees with what get_next_packet() hands out
+            nr = st.prev["fields"]["num_ready"]
+            if st.ob["ret"] == 0 and nr > 0:
+                raise Failure(f"C10 the handler reports {nr} packet(s) ready but get_next_packet() returned nothing: its state is "
+                              f"inconsistent, later calls raise 'unretrieved PDUs' without a queued PDU (op {st.i})")
+            if st.ob["ret"] == 1 and nr <= 0:
+                raise Failure(f"C10 get_next_packet() returned a PDU while the handler reported none ready (op {st.i})")
         if not e:
             continue
         if st.tag in (5, 6, 7, 10):
@@ -52,7 +60,7 @@ def oracle_c10(tr: Trace):
             if not (tr.kind == "dest" and e in (201, 202)):
                 raise Failure(f"C10 OS error {name} leaked from the {tr.kind} handler (op {st.i})")
         if e == 1:
-            if st.prev is None or (st.prev["fields"]["qlen"] == 0 and st.prev["fields"]["num_ready"] <= 0):
+            if st.prev is None or st.prev["fields"]["qlen"] == 0:
                 raise Failure(f"C10 'unretrieved PDUs' raised although no PDU was queued when the call was made (op {st.i})")
         if st.tag == 0 and e in adm and st.prev is not None:
             a = {k: v for k, v in st.prev["fields"].items() if k not in ("exc", "ret")}
@@ -67,6 +75,14 @@ def oracle_c12(tr: Trace):
     remote = tr.cfg["remotes"][0] if tr.cfg["remotes"] else None
     for k, st in enumerate(tr.steps):
         f = st.ob["fields"]
+        if tr.kind == "dest" and st.tag == 2 and st.ob["ret"] == 1 and remote is not None:
+            # whatever the indication switches say: the Finished PDU of a cancelled, incomplete reception reports the file as
+            # discarded deliberately exactly when disposition-on-cancellation is configured (and the file then is gone)
+            g = codec.dec_got(st.ob["extra"])[0]
+            if g["kind"] == codec.K_FIN and g["cond"] != 0 and g["deliv"] == 1 and g["fstatus"] in (0, 2):
+                if (g["fstatus"] == 0) != bool(remote["disposition"]):
+                    raise Failure(f"C12 Finished PDU of a cancelled incomplete reception (condition {g['cond']}) reports file status "
+                                  f"{g['fstatus']} although disposition-on-cancellation is {bool(remote['disposition'])} (op {st.i})")
         if st.tag == 3 and st.prev is not None:
             pf = st.prev["fields"]
             if st.ob["exc"] == 1:
